@@ -28,8 +28,9 @@ EXTENDS Mpt, Json, SequencesExt
 
 Trace == ndJsonDeserialize("trace.ndjson")
 
-VARIABLES l, bad, prevOK
-tvars == <<vars, l, bad, prevOK>>
+VARIABLES l, bad, prevOK,
+          opsSoFar    \* the calls of the current history up to the state the specification is in
+tvars == <<vars, l, bad, prevOK, opsSoFar>>
 
 (* A cache outside the state (TLC register 1, the monitor runs with one worker):        *)
 (* content -> the first projection observed for that content that passed every          *)
@@ -61,6 +62,33 @@ ContentAfter(c, ops) ==
 Empty == [k \in AllKeyIds |-> 0]
 
 (* --- the step: is (content, call, content') a step of the reference ------ *)
+(* Every version the history committed ("C", "R", "X") must keep reading as the content it had:  *)
+(* re-opened on the current NodeDatabase as long as that database saw the commit (an "X" starts *)
+(* a fresh one) or the version went to disk; re-opened on a fresh NodeDatabase over the disk     *)
+(* store once it went to disk ("X" of that version, or a later Cap(0) of the database holding   *)
+(* it).  Fold over the calls: <<content, versions, in memory layer, on disk>>.                  *)
+RECURSIVE VersionsAfter(_, _)
+VersionsAfter(acc, ops) ==
+  IF ops = <<>> THEN acc
+  ELSE LET o  == Head(ops)
+           c  == acc[1]
+           c2 == IF o[1] = "U" THEN [c EXCEPT ![o[2]] = o[3]] ELSE IF o[1] = "D" THEN [c EXCEPT ![o[2]] = 0] ELSE c
+           n  == Len(acc[2]) + 1
+           a2 == CASE o[1] \in {"C", "R"} -> <<c2, Append(acc[2], c2), acc[3] \cup {n}, acc[4]>>
+                   [] o[1] = "X" -> <<c2, Append(acc[2], c2), {n}, acc[4] \cup {n}>>
+                   [] o[1] = "P" /\ o[3] = 0 -> <<c2, acc[2], acc[3], acc[4] \cup acc[3]>>
+                   [] OTHER -> <<c2, acc[2], acc[3], acc[4]>>
+       IN  VersionsAfter(a2, Tail(ops))
+
+JudgeVersions(e, ops) ==
+  LET va == VersionsAfter(<<Empty, <<>>, {}, {}>>, ops)
+      vs == va[2]
+      p  == e.proj
+  IN  IF Len(p.vsame) # Len(vs) THEN <<"Proj.versions">>
+      ELSE Tag(\A i \in 1..Len(vs) : i \in va[3] \cup va[4] => p.vsame[i] = vs[i], "Inv.VersionReadsOnSameDatabase") \o
+           Tag(\A i \in 1..Len(vs) : i \in va[3] \cup va[4] => p.vsameIter[i] = IterOf(vs[i]), "Inv.VersionIterationOnSameDatabase") \o
+           Tag(\A i \in 1..Len(vs) : i \in va[4] => p.vfresh[i] = vs[i], "Inv.VersionReadsFromDisk")
+
 JudgeStep(e, c2) ==
   CASE e.event = "Reset" ->
          Tag(c2 = ContentAfter(Empty, e.ops), "Inv.ReadsAfterHistory") \o
@@ -87,6 +115,7 @@ JudgeStep(e, c2) ==
     [] e.event \in {"R", "X"} ->
          Tag(~e.err /\ e.res = e.proj.hash, "Inv.RootReportedByReopen") \o Tag(c2 = content, "Inv.ContentKeptByReopen")
     [] e.event = "L" -> Tag(c2 = content, "Inv.ContentKeptByCacheLimit")
+    [] e.event = "P" -> Tag(~e.err, "Cap.error") \o Tag(c2 = content, "Inv.ContentKeptByCap")
     [] OTHER -> <<"unknown-event">>
 
 (* --- the property in the state after the call ---------------------------- *)
@@ -121,10 +150,11 @@ Judge(e) ==
   LET c2 == Obs(e) IN
   Tag(~e.panicked /\ e.proj.panic = "", "Inv.CallCompletes") \o
   (IF ~Sane(c2) THEN <<"Inv.ReadsKnownValue">>
-   ELSE JudgeStep(e, c2) \o JudgeInv(e, c2))
+   ELSE JudgeStep(e, c2) \o JudgeInv(e, c2) \o
+        JudgeVersions(e, IF e.event = "Reset" THEN e.ops ELSE Append(opsSoFar, <<e.event, e.k, e.v>>)))
 
-TraceInit == /\ content = Empty /\ tree = Nil /\ limit = 0 /\ prov = "built"
-             /\ l = 1 /\ bad = <<>> /\ prevOK = FALSE
+TraceInit == /\ content = Empty /\ tree = Nil /\ limit = 0 /\ prov = "built" /\ dbst = "empty"
+             /\ l = 1 /\ bad = <<>> /\ prevOK = FALSE /\ opsSoFar = <<>>
              /\ TLCSet(1, [x \in {} |-> <<>>])
 
 TraceNext ==
@@ -140,7 +170,9 @@ TraceNext ==
          /\ limit' = IF e.fan THEN limit
                      ELSE IF e.event = "L" THEN e.v ELSE IF e.event \in {"R", "X", "Reset"} THEN 0 ELSE limit
          /\ prevOK' = IF e.fan THEN prevOK ELSE (j = <<>>)
-         /\ prov' = "built"
+         /\ prov' = "built" /\ dbst' = "empty"
+         /\ opsSoFar' = IF e.event = "Reset" THEN e.ops
+                         ELSE IF e.fan THEN opsSoFar ELSE Append(opsSoFar, <<e.event, e.k, e.v>>)
          /\ bad' = bad \o Fresh(e.event, j)
          /\ IF j = <<>> /\ c2 \notin DOMAIN Cache THEN TLCSet(1, Cache @@ (c2 :> ProjKey(e.proj))) ELSE TRUE
 
